@@ -5,12 +5,12 @@ CONSTANTS
     Grace = 3
     MaxCalls = 1
     Transport = "unix"
-    StaleFix = FALSE
+    StaleFix = TRUE
     Hooks = FALSE
     Mode = "mc"
     Depth = 0
     Eager = FALSE
-    SSHook = FALSE
+    SSHook = TRUE
 INVARIANTS ReturnOnlyWhenIdle ListensUntilShutdown CounterExact OwnResponsesOnly SocketFile
-PROPERTIES StopsOnlyAfterAnIdlePeriod EventuallyReturnsWhenIdle
+PROPERTIES StopsOnlyAfterAnIdlePeriod NeverStopsWhileInService StopsOnlyWhenIdleNow EventuallyReturnsWhenIdle
 CHECK_DEADLOCK FALSE
